@@ -71,6 +71,10 @@ var shapes = []shapeDef{
 	{"nominated-mixed-case", []F{{"Connection", "x-hOp , Keep-Alive"}, {"X-Hop", "h"}, {"Keep-Alive", "timeout=1"}, {"X-Hop2", "2"}}},
 }
 
+// ruleSets: configured --header rules (C16 checks the rule semantics in isolation; here: that they are applied
+// to forwarded requests at the documented place, after the proxy's own additions, and nothing is invented).
+var ruleSets = [][]string{nil, {"-User-Agent"}, {"X-Added: v"}, {"-X-*"}, {"%x-lower"}, {"X-Empty;", "-Cookie"}, {"-User-Agent", "-Accept-Encoding"}}
+
 var hopByHop = map[string]bool{"connection": true, "keep-alive": true, "proxy-authenticate": true, "proxy-authorization": true,
 	"proxy-connection": true, "te": true, "trailer": true, "transfer-encoding": true, "upgrade": true}
 
@@ -201,6 +205,7 @@ func segment(x *explore.X, label string, m h1x.Msg, free bool) [][]byte {
 }
 
 type env struct {
+	rules       int // index into ruleSets
 	mitm        bool
 	viaUpstream bool
 	clientIP    string
@@ -267,6 +272,54 @@ func expectForwarded(x *explore.X, e *env, r reqSpec, got httpwire.Msg) {
 	for _, f := range got.Fields {
 		l := strings.ToLower(f.Name)
 		gotBy[l] = append(gotBy[l], f.Value)
+	}
+	// configured header rules (reference semantics of C16, applied after the proxy's own additions)
+	dropX, noUA, noAE := false, false, false
+	for _, rule := range ruleSets[e.rules] {
+		switch rule {
+		case "-User-Agent":
+			delete(sent, "user-agent")
+			noUA = true
+		case "-Accept-Encoding":
+			delete(sent, "accept-encoding")
+			noAE = true
+		case "X-Added: v":
+			if _, removed := nominated["x-added"]; !removed {
+				sent["x-added"] = append(sent["x-added"], "v")
+			}
+		case "-X-*":
+			dropX = true
+			for k := range sent {
+				if strings.HasPrefix(k, "x-") {
+					delete(sent, k)
+				}
+			}
+		case "%x-lower":
+			for _, f := range got.Fields {
+				if strings.EqualFold(f.Name, "x-lower") && f.Name != "x-lower" {
+					fail("header-rule/rename", "rule %%x-lower: field is spelt %q at the next hop", f.Name)
+				}
+			}
+		case "X-Empty;":
+			sent["x-empty"] = []string{""}
+		case "-Cookie":
+			delete(sent, "cookie")
+		}
+	}
+	if noUA {
+		if g, ok := gotBy["user-agent"]; ok {
+			fail("header-rule/user-agent-after-removal", "rule -User-Agent is configured but the next hop received User-Agent %q", g)
+		}
+	}
+	if noAE {
+		// (the transport may add its own Accept-Encoding: gzip when none is left; that is the documented addition)
+	}
+	if dropX {
+		for k, g := range gotBy {
+			if strings.HasPrefix(k, "x-") {
+				fail("header-rule/prefix-removal", "rule -X-* is configured but the next hop received %q = %q", k, g)
+			}
+		}
 	}
 	documented := map[string]bool{"host": true, "via": true, "x-forwarded-for": true, "x-forwarded-proto": true, "x-forwarded-host": true,
 		"x-forwarded-url": true, "accept-encoding": true, "content-length": true, "transfer-encoding": true}
@@ -356,7 +409,9 @@ func expectForwarded(x *explore.X, e *env, r reqSpec, got httpwire.Msg) {
 	}
 	gx := elems(gotBy["x-forwarded-for"])
 	sx := elems(sent["x-forwarded-for"])
-	if len(gx) == 0 || gx[len(gx)-1] != e.clientIP {
+	if dropX {
+		// removed by the configured prefix rule, checked above
+	} else if len(gx) == 0 || gx[len(gx)-1] != e.clientIP {
 		fail("xff/client-address", "X-Forwarded-For %q does not end with the client address %q", gx, e.clientIP)
 	} else if strings.Join(gx[:len(gx)-1], "|") != strings.Join(sx, "|") {
 		sig := "xff/client-elements"
@@ -375,8 +430,8 @@ func expectForwarded(x *explore.X, e *env, r reqSpec, got httpwire.Msg) {
 		delete(fill, "x-forwarded-url")
 	}
 	for name, wantv := range fill {
-		if _, ok := sent[name]; ok {
-			continue // compared above as an ordinary end-to-end field
+		if _, ok := sent[name]; ok || dropX {
+			continue // compared above as an ordinary end-to-end field (or removed by the prefix rule)
 		}
 		if g := gotBy[name]; len(g) != 1 || (g[0] != wantv && !(name == "x-forwarded-url" && r.form == 2 && g[0] == scheme+"://"+originHost)) {
 			fail("x-forwarded-fill/"+name, "%s = %q, want [%q]", name, g, wantv)
@@ -434,6 +489,10 @@ func scenario(x *explore.X, product bool, ncfg int) {
 		choose = x.ChooseFree
 	}
 	cfgk := choose("config", ncfg)
+	if !product {
+		e.rules = x.Choose("header-rules", len(ruleSets))
+		opts.RequestHeaders = ruleSets[e.rules]
+	}
 	nextHopAddr := originHost + ":80"
 	var pki *world.PKI
 	switch cfgk {
@@ -569,7 +628,7 @@ func scenario(x *explore.X, product bool, ncfg int) {
 
 func TestC01(t *testing.T) {
 	s := explore.NewSuite(t, "C01", "exploration",
-		"one client connection carrying 0-2 history requests (5 kinds) and one request under test = method(6) x target form(3-4) x path/query(7) x header shape(24) x body framing(3) x size(9) x chunking(4) x version(2) x write segmentation(9) x configuration(direct, upstream HTTP proxy, MITM'd CONNECT tunnel to a TLS origin); all combinations with at most D deviations from the default request (D=3 quick, 4 thorough); plus the full product body framing(2) x size(9) x chunking(4) x segmentation(9) x history(11) x configuration(2 quick, 3 thorough) for POST are executed on the real HTTPProxy over the in-memory network and every request captured at the next hop is compared with expectForwarded; non-trivial = at least one forwarded request was compared")
+		"one client connection carrying 0-2 history requests (5 kinds) and one request under test = method(6) x target form(3-4) x path/query(7) x header shape(24) x body framing(3) x size(9) x chunking(4) x version(2) x write segmentation(9) x configuration(direct, upstream HTTP proxy, MITM'd CONNECT tunnel to a TLS origin) x configured --header rule set(7); all combinations with at most D deviations from the default request (D=3 quick, 4 thorough); plus the full product body framing(2) x size(9) x chunking(4) x segmentation(9) x history(11) x configuration(2 quick, 3 thorough) for POST are executed on the real HTTPProxy over the in-memory network and every request captured at the next hop is compared with expectForwarded; non-trivial = at least one forwarded request was compared")
 	s.Assume = []string{"simnet models TCP (in-order, reliable, segment boundaries preserved per write)", "httpwire (independent strict parser) is trusted", "crypto/tls of the Go toolchain is used by the scripted TLS peers"}
 	bubble := func(f func(x *explore.X)) func(x *explore.X) {
 		return func(x *explore.X) { world.Run(t, x, func() { f(x) }) }
